@@ -29,7 +29,7 @@ m = {
     "setup_cmd": "sh ./setup.sh",
     "hooks": {
         "guard": "verif",
-        "enable": "-tags=verif (contract files **/contracts_verif.go are comment-only Go files behind //go:build verif; gocv loads /repo with that tag)",
+        "enable": "-tags=verif (contract files **/contracts*_verif.go (root package and lazyproto) are comment-only Go files behind //go:build verif; gocv loads /repo with that tag)",
         "baseline_off_cmd": "cd /repo && GOFLAGS=-mod=mod go test -vet=off -count=1 ./...",
         "source_commits": claims.get("_hook_commits", []),
         "add_only": True,
